@@ -281,17 +281,28 @@ class C03(Prop):
       names = rng.sample(['x', 'y', 'z', 'w'], rng.randint(1, 3))
       fields = []
       for nm in names:
+        # field kinds: atoms (some frozen + optional), Object-typed, and a guaranteed share of
+        # container-typed fields (list / dict with schema / Union[container, Str])
+        shape = rng.weighted([(30, 'any'), (8, 'frozen-optional'), (14, 'object'), (16, 'list'), (16, 'dict'), (16, 'union')])
         fd = g.spec(rng.weighted([(3, 0), (3, 1)]))
-        if fd['k'] not in ('list', 'dict', 'union') and rng.chance(0.25):
-          inner = g.spec(1)
-          if inner['k'] in ('list', 'dict') and (inner['k'] != 'dict' or inner.get('fields')):
+        if shape in ('list', 'dict', 'union'):
+          inner = None
+          for _try in range(20):
+            c = g.spec(1)
+            want = 'list' if shape == 'list' else 'dict' if shape == 'dict' else rng.choice(['list', 'dict'])
+            if c['k'] == want and (c['k'] != 'dict' or c.get('fields')):
+              inner = c
+              break
+          if inner is not None:
             inner['n'] = 0
             inner.pop('d', None)
             inner.pop('fz', None)
-            fd = inner if rng.chance(0.5) else {'k': 'union', 'cands': [inner, {'k': 'str', 'rx': None, 'n': 0}], 'n': 0}
-        if rng.chance(0.2):
+            fd = inner if shape != 'union' else {'k': 'union', 'cands': [inner, {'k': 'str', 'rx': None, 'n': 0}], 'n': 0}
+        elif shape == 'object':
           fd = {'k': 'obj', 'cls': 4, 'n': rng.choice([0, 0, 1])}    # Object-typed field (nested symbolic object)
-        elif fd['k'] in ATOM_KINDS and rng.chance(0.12):
+        elif shape == 'frozen-optional':
+          while fd['k'] not in ATOM_KINDS:
+            fd = g.spec(0)
           self.freeze_optional(g, fd)
         if fd['k'] in ('list', 'tuple', 'dict', 'union'):
           # a noneable container field re-applies its (symbolic) default through CustomTyping,
@@ -343,7 +354,13 @@ class C03(Prop):
       src.pop('fz', None)
       src['n'] = 0
       sp = rng.chance(0.3)
+      wider = src['k'] == 'dict' and not any(f[0][0] == 'k' for f in src['fields']) and rng.chance(0.35)
+      if wider:
+        # bound to a WIDER schema (an extra dynamic StrKey field) and actually holding extra keys
+        src['fields'] = src['fields'] + [[['k', None], g.spec(0)]]
       content = g.valid(src)
+      if wider and not any(k not in [f[0][1] for f in src['fields'] if f[0][0] == 'c'] for k, _ in content[1]):
+        content = ['d', content[1] + [['p', g.valid(src['fields'][-1][1])]]]
       if sp and content[0] == 'd' and content[1] and rng.chance(0.6):
         content = ['d', content[1][1:]]
       a = ['typed', src, sp, content]
@@ -426,6 +443,8 @@ class C03(Prop):
         else:
           op = [c]
       ops.append([op, scope])
+      if '"typed"' in json.dumps(op) and rng.chance(0.35):
+        ops.append([copy.deepcopy(op), scope])      # the same write retried (a rejected write must stay rejected)
     return {'kind': kind, 'spec': spec, 'partial': partial, 'items': items, 'ops': ops}
 
   # -- execution ---------------------------------------------------------------------------
